@@ -243,7 +243,7 @@ class Background2D:
 
         # box_size cannot be larger than the data array size
         self.box_size = as_pair('box_size', box_size, lower_bound=(0, 1),
-                                upper_bound=data.shape)
+                                upper_bound=self._data.shape)
 
         self.fill_value = fill_value
         if exclude_percentile < 0 or exclude_percentile > 100:
